@@ -40,6 +40,7 @@ type Profile struct {
 	PPool                          int  // the scheduler is restricted to a node pool; nodes/pods carry pool labels
 	Saturated                      bool // idle GPUs are filled with running filler workloads (see Saturate)
 	Contention                     bool // GPUs are the bottleneck: GPU nodes, GPU workloads, meaningful GPU quotas
+	AntiFamily                     bool // anti-affinity families: 'holders' (required pod anti-affinity against a role, small requests) and 'targets' (pods that only carry the role label) compete in full clusters
 	TopoFamily                     bool // topology families: most workloads carry a required level, start partly running inside ONE domain, sometimes with a terminating pod left in another domain
 }
 
@@ -511,6 +512,21 @@ func genTemplate(t *rapid.T, pf Profile, w *World) Pod {
 	}
 	if hasDRAGPU && p.GPUs == 0 && p.Fraction == "" && p.GPUMemory == 0 && len(p.Ext) == 0 && chance(t, 5, "draGpuClaim") {
 		p.Claims = append(p.Claims, Claim{Name: "gpu", Class: DRAGPUClass, Count: pickInt(t, "draGpuCount", 1, 1, 2)})
+	}
+	if pf.AntiFamily {
+		switch uniform(t, 10, "antiFamilyRole") {
+		case 0, 1, 2, 3: // holder: forbids pods of a role in its host / zone; usually small so that allocate binds it at once
+			p.PodAffinity = []PodAffinityTerm{{Anti: true, TopologyKey: pickS(t, "antiKeyF", HostnameLabel, HostnameLabel, ZoneLabel), MatchLabels: map[string]string{"role": pickS(t, "antiRoleF", "x", "y")}}}
+			if chance(t, 3, "holderHasRole") {
+				p.Labels = map[string]string{"role": pickS(t, "holderRole", "x", "y")}
+			}
+			if chance(t, 6, "holderCpuOnly") {
+				p.GPUs, p.Fraction, p.GPUMemory, p.Devices, p.Ext, p.Claims = 0, "", 0, 0, nil, nil
+			}
+		case 4, 5, 6, 7, 8: // target: only carries the role
+			p.Labels = map[string]string{"role": pickS(t, "targetRole", "x", "y")}
+		}
+		return p
 	}
 	if chance(t, pf.PConstraints, "constrained") {
 		switch between(t, 0, 5, "constraintKind") {
